@@ -47,23 +47,24 @@ pub fn stub_fast_hash_ab(input: &str) -> Hash {
 /// rule f: 1..=FN printable ASCII bytes without '*' / '^'; URL u = pre(0..=CTX) ++ f ++ post(0..=CTX),
 /// no context on an anchored side.
 fn direct_kind<const FN: usize, const UN: usize>(la: bool, ra: bool, ctx2: bool) {
-    let fb: [u8; FN] = crate::verif_shim::any_bytes::<FN>();
-    let fl: usize = kani::any();
+    let mut dr = crate::verif_shim::Draw::new();
+    let fb: [u8; FN] = dr.bytes::<FN>();
+    let fl: usize = dr.usize();
     kani::assume(fl >= 1 && fl <= FN);
     let mut i = 0;
     while i < FN {
         kani::assume(fb[i] < 0x80 && fb[i] >= 0x20 && fb[i] != b'*' && fb[i] != b'^');
         i += 1;
     }
-    let pre: u8 = kani::any();
-    let post: u8 = kani::any();
+    let pre: u8 = dr.u8();
+    let post: u8 = dr.u8();
     kani::assume(pre < 0x80 && pre >= 0x20 && post < 0x80 && post >= 0x20);
-    let has_pre: bool = kani::any();
-    let has_post: bool = kani::any();
-    let pre2: u8 = kani::any();
-    let post2: u8 = kani::any();
-    let has_pre2: bool = kani::any();
-    let has_post2: bool = kani::any();
+    let has_pre: bool = dr.bool();
+    let has_post: bool = dr.bool();
+    let pre2: u8 = dr.u8();
+    let post2: u8 = dr.u8();
+    let has_pre2: bool = dr.bool();
+    let has_post2: bool = dr.bool();
     kani::assume(pre2 < 0x80 && pre2 >= 0x20 && post2 < 0x80 && post2 >= 0x20);
     if !ctx2 {
         kani::assume(!has_pre2 && !has_post2);
@@ -206,7 +207,8 @@ fn c01_tok2_right() {
 #[kani::proof]
 #[kani::unwind(40)]
 fn c01_l1c() {
-    let c: u8 = kani::any();
+    let mut dr = crate::verif_shim::Draw::new();
+    let c: u8 = dr.u8();
     kani::assume(c < 0x80);
     assert!(is_allowed_filter(c as char) == alnum(c), "P:l1c.ascii_predicate");
     kani::cover!(is_allowed_filter(c as char), "W:l1c.allowed");
@@ -217,12 +219,13 @@ fn c01_l1c() {
 #[kani::proof]
 #[kani::unwind(6)]
 fn c01_bin_lookup() {
-    let a: [u64; 3] = crate::verif_shim::any_u64s::<3>();
-    let n: usize = kani::any();
+    let mut dr = crate::verif_shim::Draw::new();
+    let a: [u64; 3] = dr.u64s::<3>();
+    let n: usize = dr.usize();
     kani::assume(n <= 3);
     kani::assume(n < 2 || a[0] <= a[1]);
     kani::assume(n < 3 || a[1] <= a[2]);
-    let x: u64 = kani::any();
+    let x: u64 = dr.u64();
     let got = bin_lookup(&a[..n], x);
     let want = (n > 0 && a[0] == x) || (n > 1 && a[1] == x) || (n > 2 && a[2] == x);
     assert!(got == want, "P:bin_lookup.membership");
